@@ -175,7 +175,7 @@ proof {
     lemma_split_is_rest(input@, n0, k, (index + clen(c)) as nat, next_slice@);
 }
 ''', label='find_from.slice_is_rest'),
-        Ins('after_stmt', 'let mut lookahead = lookahead.clone();', '''
+        Ins('after_stmt', 'let mut lookahead = $_;', '''
 proof {
     assert(next_slice@.skip(0) =~= next_slice@);
     assert(next_slice@.take(0) =~= Seq::<char>::empty());
@@ -197,7 +197,7 @@ proof {
     lemma_split_none_impossible(input@, n0, k, (index + clen(c)) as nat);
 }
 ''', label='find_from.at_end_of_input'),
-        Ins('before', 'let end = index + c.len_utf8();', '''
+        Ins('before', 'let end = $_;', '''
 proof {
     broadcast use axiom_terminal_id_key_model, axiom_fx_valid;
     if !d.lookaheads@.contains_key(tid) {
